@@ -14,6 +14,7 @@ import (
 	"fmt"
 	"net"
 	"sort"
+	"syscall"
 
 	"github.com/Jigsaw-Code/outline-ss-server/service"
 
@@ -35,6 +36,7 @@ type spec struct {
 	Close2 bool
 	N      int  // connections / datagrams
 	Reacq  bool // after everything closed: acquire again and deliver one more
+	FailFirst bool // the very first acquire fails (address in use), the following ones succeed
 }
 
 func (s spec) name() string {
@@ -42,7 +44,7 @@ func (s spec) name() string {
 	if s.Packet {
 		k = "packet"
 	}
-	return fmt.Sprintf("%s[close2=%v,n=%d,reacq=%v]", k, s.Close2, s.N, s.Reacq)
+	return fmt.Sprintf("%s[close2=%v,n=%d,reacq=%v,failfirst=%v]", k, s.Close2, s.N, s.Reacq, s.FailFirst)
 }
 
 type obsT struct {
@@ -64,6 +66,13 @@ func streamScenario(s spec) *engine.Scenario {
 		o = obsT{delivered: map[int][]string{}}
 		vw := vnet.Reset()
 		m := service.NewListenerManager()
+		if s.FailFirst {
+			vw.BindErr["tcp/"+addr] = syscall.EADDRINUSE
+			if _, err := m.ListenStream(addr); err == nil {
+				panic("bind fault not injected")
+			}
+			delete(vw.BindErr, "tcp/"+addr)
+		}
 		ln1, err := m.ListenStream(addr)
 		if err != nil {
 			panic(err)
@@ -225,6 +234,13 @@ func packetScenario(s spec) *engine.Scenario {
 		o = obsT{delivered: map[int][]string{}}
 		vw := vnet.Reset()
 		m := service.NewListenerManager()
+		if s.FailFirst {
+			vw.BindErr["udp/"+addr] = syscall.EADDRINUSE
+			if _, err := m.ListenPacket(addr); err == nil {
+				panic("bind fault not injected")
+			}
+			delete(vw.BindErr, "udp/"+addr)
+		}
 		pc1, err := m.ListenPacket(addr)
 		if err != nil {
 			panic(err)
@@ -325,6 +341,7 @@ func specs(tier string) []spec {
 			spec{Packet: p, Close2: false, N: 2},
 			spec{Packet: p, Close2: true, N: 2, Reacq: true},
 			spec{Packet: p, Close2: true, N: 1},
+			spec{Packet: p, Close2: true, N: 1, FailFirst: true},
 		)
 		if tier == "thorough" {
 			out = append(out, spec{Packet: p, Close2: false, N: 3}, spec{Packet: p, Close2: true, N: 3, Reacq: true})
@@ -349,9 +366,9 @@ func scenarios(tier string) []*engine.Scenario {
 
 func init() {
 	hk.Register("C12", func(ctx *engine.Ctx) {
-		bound := 2
+		bound := 3
 		if ctx.Tier == "thorough" {
-			bound = 3
+			bound = 4
 		}
 		for _, sc := range scenarios(ctx.Tier) {
 			engine.ExploreS(ctx, sc, engine.SConfig{Bound: bound, Shard: ctx.Shard, NShards: ctx.NShards, Deadline: ctx.Deadline})
